@@ -62,61 +62,95 @@ def exact_scan_problems(prog, body: List[ast.stmt], key_name: str, what: str, re
 
 
 def check(ctx, rule: str = "name-resolution") -> None:
+    """Decided on the symx event log of Table._resolve_column and Table.__getitem__ (returns / raises with their path
+    conditions), so the rule does not depend on how the branches and scans are written."""
+    from ..symx import Interp as SInterp
+    from ..symx import flatten_conds, show, show_conds, subterms
     prog = ctx.prog
     probs: List[Tuple[str, ast.AST]] = []
     # (1) delegation
     rc = prog.func("table.Table._resolve_column")
-    spec = rc.params[1]
-    found = False
-    for s in rc.body:
-        if isinstance(s, ast.If) and short(s.test) == f"isinstance({spec}, str)":
-            found = True
-            if not (len(s.body) == 1 and isinstance(s.body[0], ast.Return) and short(s.body[0].value) == f"self[{spec}]"):
-                probs.append((f"_resolve_column resolves a name with `{short(s.body[0], 70)}` instead of string indexing "
-                              f"self[{spec}] (exact stored name first, first occurrence)", s))
-    if not found:
+    it = SInterp(prog, rc)
+    S, spec = ("param", rc.params[0]), ("param", rc.params[1])
+    is_str = ("call", ("name", "isinstance"), (spec, ("name", "str")), ())
+    is_vec = ("call", ("name", "isinstance"), (spec, ("name", "Vector")), ())
+    rets = [e for e in it.events if e.kind == "return" and e.depth == 0]
+    str_rets = [e for e in rets if (is_str, True) in flatten_conds(e.conds)]
+    vec_rets = [e for e in rets if (is_vec, True) in flatten_conds(e.conds) and (is_str, True) not in flatten_conds(e.conds)]
+    if not str_rets:
         probs.append(("_resolve_column: string branch not found", rc.node))
-    vec_ok = False
-    for s in walk_stmts(rc.body):
-        if isinstance(s, ast.If) and short(s.test) == f"isinstance({spec}, Vector)":
-            vec_ok = len(s.body) == 1 and isinstance(s.body[0], ast.Return) and short(s.body[0].value) == spec
-            if not vec_ok:
-                probs.append((f"_resolve_column handles a Vector spec by `{short(s.body[0], 70)}`: a column given as a vector must be used "
-                              f"as given (a derived vector that keeps a column's name is NOT that column)", s))
-    for s in walk_stmts(rc.body):
-        if isinstance(s, ast.Assign) and any(isinstance(t, ast.Name) and t.id == spec for t in s.targets):
-            probs.append((f"_resolve_column rewrites its spec (`{short(s, 60)}`) before resolving it", s))
-    for s in walk_stmts(rc.body):
-        if isinstance(s, ast.Return) and s.value is not None and any(
-                isinstance(n, ast.Attribute) and n.attr in ("_column_map",) or
-                (isinstance(n, ast.Call) and isinstance(n.func, ast.Attribute) and n.func.attr == "_current_column_map")
-                for n in ast.walk(s.value)):
-            probs.append(("_resolve_column answers from the sanitised accessor map", s))
+    for e in str_rets:
+        if e.term != ("sub", S, spec):
+            probs.append((f"_resolve_column resolves a name with `{show(e.term, it)[:70]}` instead of string indexing "
+                          f"self[{rc.params[1]}] (exact stored name first, first occurrence)", e.node))
+    for e in vec_rets:
+        if e.term != spec:
+            probs.append((f"_resolve_column handles a Vector spec by `{show(e.term, it)[:70]}`: a column given as a vector must be used "
+                          f"as given (a derived vector that keeps a column's name is NOT that column)", e.node))
+    for e in rets:
+        if any(t[0] == "attr" and t[2] in ("_column_map", "_current_column_map") for t in subterms(e.term)):
+            probs.append(("_resolve_column answers from the sanitised accessor map", e.node))
     ctx.ob(rule, rc, "delegation", not probs, "_resolve_column(str) delegates to self[spec]",
            probs[0][1] if probs else rc.node, message="; ".join(p for p, _ in probs))
     # (2) exact scan first
-    f, br = string_branch(prog)
-    key = f.params[1]
-
-    def returns_col(stmts, cv):
-        return len(stmts) == 1 and isinstance(stmts[0], ast.Return) and isinstance(stmts[0].value, ast.Name) \
-            and stmts[0].value.id == cv
-    probs2 = exact_scan_problems(prog, br.body, key, "Table.__getitem__(str)", returns_col)
-    # nothing returns before the scan; last statement raises the missing-column error
-    if not probs2:
-        scan = next(s for s in br.body if isinstance(s, ast.For))
-        for s in br.body[: br.body.index(scan)]:
-            for n in walk_stmts([s]):
-                if isinstance(n, ast.Return):
-                    probs2.append(("Table.__getitem__(str): something returns before the exact stored-name scan", n))
-        # the key must not be rebound before the scan
-        for s in br.body[: br.body.index(scan)]:
-            if isinstance(s, ast.Assign) and any(isinstance(t, ast.Name) and t.id == key for t in s.targets):
-                probs2.append((f"Table.__getitem__(str): `{key}` is rewritten before the exact scan", s))
-    last = br.body[-1]
-    if not (isinstance(last, ast.Raise) and isinstance(last.exc, ast.Call) and isinstance(last.exc.func, ast.Name)
-            and last.exc.func.id in ("_missing_col_error", "SerifKeyError")):
-        probs2.append(("Table.__getitem__(str): the branch does not end by raising the missing-column error", last))
+    f = prog.func("table.Table.__getitem__")
+    gi = SInterp(prog, f)
+    me = ("param", f.params[0])
+    cols = ("attr", me, "_underlying")
+    probs2: List[Tuple[str, ast.AST]] = []
+    # the subject of the string test: the key (possibly passed through _check_duplicate at the top of the function)
+    KEY = None
+    for e in gi.events:
+        for t, pol in flatten_conds(e.conds):
+            if t[0] == "call" and t[1] == ("name", "isinstance") and len(t[2]) == 2 and t[2][1] == ("name", "str") and pol \
+                    and any(x == ("param", f.params[1]) for x in subterms(t[2][0])):
+                KEY = t[2][0]
+                lit = t
+                break
+        if KEY is not None:
+            break
+    if KEY is None:
+        raise AnalysisError("Table.__getitem__: string-key branch (a test isinstance(key, str)) not found")
+    branch = [e for e in gi.events if (lit, True) in flatten_conds(e.conds) and e.kind in ("return", "raise")]
+    branch.sort(key=lambda e: e.seq)
+    what = "Table.__getitem__(str)"
+    if not branch:
+        probs2.append((f"{what}: the string branch neither returns nor raises", f.node))
+    else:
+        first = branch[0]
+        ok_first = False
+        if first.kind == "return" and len(first.loops) == 1:
+            lp = gi.loops[first.loops[0]]
+            src = lp.domain if (lp.domain is not None and lp.domain[0] != "tuple") else lp.iter
+            el = ("elem", cols, lp.id)
+            inside = flatten_conds(first.conds[len(lp.conds):])
+            before = [c for c in flatten_conds(lp.conds) if c != (lit, True)]
+            if src != cols:
+                probs2.append((f"{what}: the first scan ranges over `{show(src, gi)[:50]}`, not over all columns in order", first.node))
+            elif inside not in ([(("cmp", "Eq", ("attr", el, "_name"), KEY), True)], [(("cmp", "Eq", KEY, ("attr", el, "_name")), True)]):
+                probs2.append((f"{what}: the first scan does more than the exact test `col._name == key` (matches under "
+                               f"`{show_conds(inside, gi)[:80]}`: a sanitised look-alike placed earlier could win over the exactly named column)",
+                               first.node))
+            elif first.term != el:
+                probs2.append((f"{what}: the exact match does not yield the matched column itself", first.node))
+            elif before:
+                probs2.append((f"{what}: the exact scan runs only under `{show_conds(before, gi)[:60]}`", first.node))
+            else:
+                ok_first = True
+                others = [e for e in branch if e is not first and lp.id in e.loops]
+                if others:
+                    probs2.append((f"{what}: the scan for the exactly named column is interleaved with other matches (`{others[0].kind} "
+                                   f"{show(others[0].term, gi)[:40]}` in the same pass): a sanitised look-alike placed EARLIER wins over the "
+                                   f"exactly named column", others[0].node))
+        else:
+            probs2.append((f"{what}: the branch does not start with the exact stored-name scan (first outcome is `{first.kind} "
+                           f"{show(first.term, gi)[:60]}`)", first.node))
+        last = branch[-1]
+        exc = last.term
+        okl = last.kind == "raise" and not last.loops and exc[0] == "call" and exc[1][0] == "name" \
+            and exc[1][1] in ("_missing_col_error", "SerifKeyError") and [c for c in flatten_conds(last.conds)] == [(lit, True)]
+        if not okl:
+            probs2.append((f"{what}: the branch does not end by raising the missing-column error", last.node))
     ctx.ob(rule, f, "exact-name-first", not probs2,
            "Table.__getitem__(str): exact stored-name scan over all columns comes first; missing name raises",
-           probs2[0][1] if probs2 else br, message="; ".join(p for p, _ in probs2))
+           probs2[0][1] if probs2 else f.node, message="; ".join(p for p, _ in probs2))
